@@ -22,6 +22,7 @@ func TestProbe(t *testing.T) {
 	if p == "" {
 		t.Skip("C20_PROBE not set")
 	}
+	defer removeProcScratch()
 	if p == "lines" { // the open: lines of KNOWN_FINDINGS.txt for this property
 		for _, k := range kfs {
 			seen := map[string]bool{}
@@ -646,6 +647,11 @@ func TestEnumAutolinks(t *testing.T) {
 				note(tag+"x|fmt(tok)", tok, p(mk(0, "x"), mk(m, tok), mk(0, " z")))
 				note(tag+"fmt|fmt(tok)", tok, p(mk(m^mB^mS, "b"), mk(m, tok)))
 				note(tag+"(fmt(tok))", tok, p(mk(0, "see ("), mk(m, tok), mk(0, ") z")))
+				// right after a code span (the reader treats the position after a finished inline node like a line start)
+				note(tag+"code|x|fmt(tok)", tok, p(mk(mC, "c"), mk(0, "x"), mk(m, tok)))
+				note(tag+"code|tok|fmt", tok, p(mk(mC, "c"), mk(0, tok), mk(m, "a")))
+				note(tag+"code|fmt(tok)|y", tok, p(mk(mC, "c d"), mk(m&^mC, tok), mk(0, "y")))
+				note(tag+"see code|x|fmt(tok)", tok, p(mk(0, "see "), mk(mC, "`"), mk(0, "x"), mk(m, tok), mk(0, " z")))
 			}
 		}
 		for _, tok := range toks {
@@ -667,4 +673,109 @@ func TestEnumAutolinks(t *testing.T) {
 		fmt.Printf("%-44s %q\n", k, bad[k])
 	}
 	fmt.Printf("autolinks: cases=%d uncovered-contexts=%d broad=%d\n", n, len(keys), broad)
+}
+
+// TestEnumLineEnds (C20_ENUM=n): every text of up to 5 characters over {a, b, blank, tab, LF, CR} as heading (ATX and
+// setext), paragraph (one run, and cut into a plain and a bold run), item, quote, code paragraph and table cell:
+// every case failing a clause must be inside an open finding's class (UNCOVERED), and the class that waives E1-E4
+// (brokenByLineEnd) should not hold cases that pass them (BROAD).
+func TestEnumLineEnds(t *testing.T) {
+	if os.Getenv("C20_ENUM") != "n" {
+		t.Skip("C20_ENUM != n")
+	}
+	alpha := []string{"a", "b", " ", "\t", "\n", "\r"}
+	var texts []string
+	var rec func(s string, n int)
+	rec = func(s string, n int) {
+		if strings.ContainsAny(s, "\n\r") && strings.ContainsAny(s, "ab") {
+			texts = append(texts, s)
+		}
+		if n == 0 {
+			return
+		}
+		for _, a := range alpha {
+			rec(s+a, n-1)
+		}
+	}
+	rec("", 5)
+	unc, broad, n, nf := 0, 0, 0, 0
+	uncBy, broadBy := map[string]int{}, map[string]int{}
+	defer func() { fmt.Println("uncovered by kind:", uncBy, "broad by kind:", broadBy) }()
+	note := func(o Opts, what string, bs ...Block) {
+		c := Case{Blocks: append(append([]Block{{K: "p", Runs: []Run{{T: "before"}}}}, bs...), Block{K: "p", Runs: []Run{{T: "after"}}}), O: o}
+		u0, b0 := unc, broad
+		defer func() { uncBy[what] += unc - u0; broadBy[what] += broad - b0 }()
+		un, att := openFails(c)
+		n++
+		hard := false
+		for _, a := range att {
+			if !strings.HasPrefix(a, "C20.E5:") {
+				hard = true
+			}
+		}
+		switch {
+		case len(un) > 0:
+			nf++
+			unc++
+			if uncBy[what] < 4 {
+				fmt.Printf("UNCOVERED %s %s %s: %.300s\n", what, js1(bs), un[0].clause, un[0].detail)
+			}
+		case len(att) > 0:
+			nf++
+			if !hard && brokenByLineEnd(c) {
+				broad++
+				if broadBy[what] < 3 {
+					fmt.Printf("BROAD %s %s\n", what, js1(bs))
+				}
+			}
+		case brokenByLineEnd(c):
+			broad++
+			if broadBy[what] < 3 {
+				fmt.Printf("BROAD %s %s\n", what, js1(bs))
+			}
+		}
+	}
+	def := Opts{GFM: true, Bullet: "-", Emph: "*", MaxLen: 80}
+	setext := Opts{GFM: true, Setext: true, Bullet: "-", Emph: "*", MaxLen: 80}
+	wrap := Opts{GFM: true, Bullet: "-", Emph: "*", Wrap: true, MaxLen: 1}
+	for _, s := range texts {
+		note(def, "h1", Block{K: "h", Level: 1, T: s})
+		note(setext, "h1=", Block{K: "h", Level: 1, T: s})
+		note(setext, "h3", Block{K: "h", Level: 3, T: s})
+		note(def, "p", Block{K: "p", Runs: []Run{{T: s}}})
+		note(wrap, "pwrap", Block{K: "p", Runs: []Run{{T: s}}})
+		if s == strings.TrimSpace(s) { // blanks at the edges of item and quote text are outside the generated domain
+			note(def, "li", Block{K: "li", T: s})
+			note(def, "li2", Block{K: "li", T: s}, Block{K: "li", T: "next"})
+			note(def, "q", Block{K: "q", T: s})
+		}
+		note(def, "code", Block{K: "code", T: s})
+		note(def, "cell", Block{K: "table", HdrBold: true, Cells: [][]string{{"h", s}, {s, "x"}}})
+		rs := []rune(s)
+		for k := 1; k < len(rs); k++ {
+			note(def, "p2", Block{K: "p", Runs: []Run{{T: string(rs[:k])}, {T: string(rs[k:]), B: true}}})
+		}
+	}
+	// code-font runs with a line feed inside (content that cannot be escaped), alone, after a plain word, wrapped
+	calpha := []string{"a", " ", "\n", "`", "#", "-", ">"}
+	var ctexts []string
+	var crec func(s string, n int)
+	crec = func(s string, n int) {
+		if strings.Contains(strings.TrimSpace(s), "\n") {
+			ctexts = append(ctexts, s)
+		}
+		if n == 0 {
+			return
+		}
+		for _, a := range calpha {
+			crec(s+a, n-1)
+		}
+	}
+	crec("", 5)
+	for _, s := range ctexts {
+		note(def, "code-run", Block{K: "p", Runs: []Run{{T: s, C: true}}})
+		note(def, "x code-run y", Block{K: "p", Runs: []Run{{T: "x "}, {T: s, C: true}, {T: " y"}}})
+		note(wrap, "x code-run y wrapped", Block{K: "p", Runs: []Run{{T: "x "}, {T: s, C: true, B: true}, {T: " y"}}})
+	}
+	fmt.Printf("line ends: texts=%d code texts=%d cases=%d failing=%d uncovered=%d broad=%d\n", len(texts), len(ctexts), n, nf, unc, broad)
 }
